@@ -3,6 +3,7 @@ package grpcdatasource
 import (
 	"errors"
 	"fmt"
+	"slices"
 	"strconv"
 
 	"github.com/tidwall/gjson"
@@ -229,8 +230,11 @@ func (j *jsonBuilder) marshalResponseJSON(message *RPCMessage, data protoref.Mes
 	// Determine which fields to include in the response
 	validFields := message.Fields
 	if message.IsOneOf() {
-		// For oneOf types, add type-specific fields based on the actual concrete type
-		validFields = append(validFields, message.FragmentFields.SelectFieldsForTypes(message.SelectValidTypes(string(data.Type().Descriptor().Name())))...)
+		// For oneOf types, add type-specific fields based on the actual concrete type.
+		// message.Fields belongs to the shared execution plan and may have spare capacity:
+		// clip it so that append copies instead of writing into the plan's backing array,
+		// which concurrent Load calls on the same plan would otherwise overwrite.
+		validFields = append(slices.Clip(validFields), message.FragmentFields.SelectFieldsForTypes(message.SelectValidTypes(string(data.Type().Descriptor().Name())))...)
 	}
 
 	// Process each field in the message
